@@ -1,7 +1,7 @@
 (* C06 — Operator precedence, associativity and grouping are respected.  Statements only; proofs by [exact]. *)
 From Coq Require Import NArith List Arith Sorted.
 Import ListNotations.
-From AV Require Import model.Syntax spec.Climb proofs.ClimbProofs proofs.ParseBounded.
+From AV Require Import model.Syntax model.Eval spec.Arith proofs.EvalExact model.Grammar spec.Climb proofs.ClimbProofs proofs.ParseBounded proofs.ParseGeneral proofs.ParseChains proofs.ExprEval.
 Local Close Scope N_scope.
 
 (* The precedence discipline of `operation()` -- a stack of open operations, closed and popped while the operation below binds
@@ -36,6 +36,53 @@ Theorem C06_layout_irrelevant_upto5 : forall (ops : list (chr * op)) (gaps : lis
   length ops <= 5 -> (forall o, In o ops -> In o opchars) -> In gaps (variants ops) ->
   front (text ops gaps) = Some (canon levels (input ops)).
 Proof. exact layout_irrelevant_upto5. Qed.
+
+(* Full strength, with no bound: the parser model itself -- `operation()`, `value()`, the forest with its checkpoints, the stack
+   of open operations, `settle` and `close_at`, as transcribed from grammar.rs -- simulates the discipline above step by step.
+   Whatever the operand parser appends for operand 0, 1, 2, ... and whatever blanks and operator nodes stand between them
+   (the hypothesis [Run] describes the token buffer), the loop of `operation()` leaves exactly the rendering of
+   [climb (Leaf 0, ...)] behind, for ANY number of operators: *)
+Theorem C06_operation_refines_climb : forall glue body valuef (qs : list nat) (lf skip : nat) (b : list tok) (F : list Grammar.tree) skip_end b_end,
+  Run glue body valuef 0 false skip b [] qs skip_end b_end -> length qs < lf ->
+  op_loop valuef (length F) lf skip true [] (mkst b F)
+  = Some (Some skip_end, mkst b_end (F ++ ritems glue body (climb (Leaf 0, mkin 0 qs)))).
+Proof. exact op_loop_climb. Qed.
+
+(* Instantiated for every expression over numbers, + - * / ^ ** and parentheses -- any number of operators, any depth of
+   nesting, any (or no) blanks between any two tokens and at either end of the query: the parser returns, for every token list
+   of that shape, the tree in which each parenthesised group stands on its own between its parentheses ([trees_operand]) ... *)
+Theorem C06_parse_expression : forall (w0 : blanks) (e : expr) (w1 : blanks),
+  parse_root (wst w0 ++ toks_expr e ++ wst w1) = Some (trees_expr w0 e ++ wsT w1).
+Proof. exact parse_expression. Qed.
+
+(* ... and, inside each group, is the documented grammar's tree: split at the operators of the lowest priority, left to right,
+   recursively over the levels `+ -` < `* /` < `^`, the blanks and operator nodes staying where they were written. *)
+Theorem C06_group_is_canon : forall (w : blanks) (x : operand) (r : tail),
+  trees_expr w (Chain x r) =
+    ritems (fun n => match n with O => wsT w | S m => tglue r m end)
+           (fun n => match n with O => trees_operand x | S m => tbody r m end)
+           (canon levels3 (Leaf 0, mkin 0 (prios r))).
+Proof. exact group_is_canon. Qed.
+
+(* End to end, parser and evaluator together: for EVERY such expression whose number literals are readable -- any number of
+   operators, any nesting, any blanks -- the parser returns a tree and the evaluator returns for it exactly one result, which is
+   the rational number that exact arithmetic (spec/Arith.v: [denote], C01) assigns to the expression grouped as the documented
+   grammar prescribes ([sem_expr]: inside every parenthesised group the [canon] tree over the levels `+ -` < `* /` < `^`, folded
+   left to right), or an error, never a number, where that is undefined; whatever the fact database and the two switches. *)
+Theorem C06_expression_value : forall debug facts describe (w0 : blanks) (e : ParseChains.expr) (w1 : blanks), readable_expr e ->
+  exists f r, parse_root (wst w0 ++ toks_expr e ++ wst w1) = Some f /\
+    eval_roots debug facts describe (skip_tokens (annotate_forest 0 f)) [] = ([r], []) /\
+    agrees r (denote (sem_expr e)).
+Proof. exact expression_value. Qed.
+
+(* non-vacuity of the unbounded statements: " 1 - (2+3)*4" with its blanks *)
+Example C06_expression_example :
+  let e := Chain (Num [49%N]) (TCons [[32%N]] ADash [45%N] [[32%N]]
+             (Paren [40%N] [41%N] [] (Chain (Num [50%N]) (TCons [] APlus [43%N] [] (Num [51%N]) TNil)) [])
+             (TCons [] AStar [42%N] [] (Num [52%N]) TNil)) in
+  parse_root (wst [[32%N]] ++ toks_expr e ++ wst []) = Some (trees_expr [[32%N]] e ++ wsT []) /\
+  length (toks_expr e) = 11.
+Proof. split; [apply parse_expression|reflexivity]. Qed.
 
 (* non-vacuity: "1 - 2 * 3 - 4" is read as (1 - (2 * 3)) - 4, one chain of two `-` whose middle operand is the product *)
 Example C06_example :
